@@ -450,7 +450,7 @@ verif_harness! {
     }
 }
 
-//@ harness name=kuz_oracle_roundtrip prop=C01 tier=quick bits=1408 variants=kuznyechik est=110 desc="W (oracle only): D(E(b)) == b and E(D(b)) == b for arbitrary round keys and all blocks, S and L uninterpreted inverse pairs (with C07: enc == E and dec == D on every back end, this is the round trip of every back end)"
+//@ harness name=kuz_oracle_roundtrip prop=C01 tier=quick bits=1408 variants=kuznyechik est=135 desc="W (oracle only): D(E(b)) == b and E(D(b)) == b for arbitrary round keys and all blocks, S and L uninterpreted inverse pairs (with C07: enc == E and dec == D on every back end, this is the round trip of every back end)"
 verif_harness! {
     name: kuz_oracle_roundtrip,
     bytes: 160 + 16,
